@@ -303,13 +303,18 @@ func vWrite(m Message) (b []byte, err error, pan string) {
 
 type vRow map[string]any
 
+// inputs longer than vModelCap bytes are predicate-checked only (no bytes /
+// fields emitted for the model comparison); raised for the feature-vector
+// boundary rows, whose vectors are up to 8192 bytes long
+var vModelCap = 6000
+
 // the unknown odd TLV record appended to valid encodings: type 2^32-3, 3 bytes
 var vUnknownRec = []byte{0xfe, 0xff, 0xff, 0xff, 0xfd, 0x03, 0xaa, 0xbb, 0xcc}
 
 // vCheckBytes runs the bytes->value->bytes->value->bytes pipeline.
 func vCheckBytes(t MessageType, b []byte, mut string, base []byte) vRow {
 	row := vRow{"k": "msg", "t": int(t), "mut": mut, "n": len(b)}
-	if len(b) <= 6000 {
+	if len(b) <= vModelCap {
 		row["b"] = whx(b)
 	}
 	m, err, pan, ms := vRead(b)
@@ -330,7 +335,7 @@ func vCheckBytes(t MessageType, b []byte, mut string, base []byte) vRow {
 	case *ReplyChannelRange:
 		row["nids"] = len(q.ShortChanIDs)
 	}
-	if len(b) <= 6000 {
+	if len(b) <= vModelCap {
 		// before WriteMessage: Encode overwrites ExtraData for some types
 		row["fmap"] = vFieldMap(m)
 	}
@@ -347,7 +352,7 @@ func vCheckBytes(t MessageType, b []byte, mut string, base []byte) vRow {
 		return row
 	}
 	row["len1"] = len(b1)
-	if len(b) <= 6000 && len(b1) <= 6000 {
+	if len(b) <= vModelCap && len(b1) <= vModelCap {
 		row["reenc"] = whx(b1)
 	}
 	m2, err, pan, _ := vRead(b1)
@@ -447,6 +452,165 @@ func vMutate(r *vrng, base []byte) ([]byte, string) {
 			n = 200 + r.intn(2000)
 		}
 		return append(b[:2], r.bytes(n)...), "random-body"
+	}
+}
+
+// ---- feature vectors at the boundaries of the uint16 bit-index range ----
+
+var vRawFvType = reflect.TypeOf(RawFeatureVector{})
+
+// vSetFeatures replaces every feature vector reachable through exported,
+// settable fields of v (RawFeatureVector, *RawFeatureVector and the named types
+// with the same underlying type: ChannelType, QueryOptions, …, also inside
+// tlv.RecordT values) by one with exactly the given bits; returns how many.
+func vSetFeatures(v reflect.Value, bits []FeatureBit, depth int) int {
+	if depth > 4 {
+		return 0
+	}
+	switch v.Kind() {
+	case reflect.Ptr:
+		if v.Type().Elem().Kind() == reflect.Struct && v.Type().Elem().ConvertibleTo(vRawFvType) &&
+			vRawFvType.ConvertibleTo(v.Type().Elem()) {
+			if !v.CanSet() {
+				return 0
+			}
+			nv := reflect.New(v.Type().Elem())
+			nv.Elem().Set(reflect.ValueOf(*NewRawFeatureVector(bits...)).Convert(v.Type().Elem()))
+			v.Set(nv)
+			return 1
+		}
+		if v.IsNil() {
+			return 0
+		}
+		return vSetFeatures(v.Elem(), bits, depth+1)
+	case reflect.Struct:
+		if v.Type().ConvertibleTo(vRawFvType) && vRawFvType.ConvertibleTo(v.Type()) {
+			if !v.CanSet() {
+				return 0
+			}
+			v.Set(reflect.ValueOf(*NewRawFeatureVector(bits...)).Convert(v.Type()))
+			return 1
+		}
+		n := 0
+		for i := 0; i < v.NumField(); i++ {
+			if v.Type().Field(i).IsExported() {
+				n += vSetFeatures(v.Field(i), bits, depth+1)
+			}
+		}
+		return n
+	}
+	return 0
+}
+
+// vFeatRows: generated values of mt whose feature vectors carry bits at the
+// boundaries 0, 1, 7, 8, 65519, 65520, 65527, 65528, 65534, 65535 (vectors of
+// 1, 2, 8190, 8191, 8192 bytes) and random high bits -> WriteMessage ->
+// ReadMessage -> equal + byte-identical re-encode (`val` rows, tag feat-boundary),
+// the encodings as byte strings (model-compared: fields and re-encoded bytes),
+// and byte-level variants: the same vector with one more leading byte (zero:
+// non-minimal, 8193 bytes; non-zero: bit index 65536, which lnd aliases to
+// bit 0 because FeatureBit is a uint16 — row flagged feat_over).
+func vFeatRows(out *vWriter, mt MessageType, r *vrng) {
+	probe, _ := vGenValue(mt, 1)
+	if probe == nil || vSetFeatures(reflect.ValueOf(probe), nil, 0) == 0 {
+		return
+	}
+	cases := [][]FeatureBit{{0}, {1, 7}, {8}, {65519}, {65520}, {65527}, {65528}, {65534},
+		{65535}, {0, 65535}}
+	// quick tier: every case is round-tripped through the real code (`val` rows), but
+	// the byte rows for the model comparison (8-16 KB each) are emitted only for one
+	// value per vector length 1, 2, 8190, 8191, 8192 and both ends of the top byte
+	heavy := map[int]bool{0: true, 1: true, 2: true, 3: true, 5: true, 6: true, 9: true}
+	nrand := vCases(2, 40)
+	for i := 0; i < nrand; i++ {
+		var bs []FeatureBit
+		for j := 0; j < 1+r.intn(5); j++ {
+			bs = append(bs, FeatureBit(65535-r.intn(600)))
+		}
+		if r.bool() {
+			bs = append(bs, FeatureBit(r.intn(200)))
+		}
+		cases = append(cases, bs)
+	}
+	old := vModelCap
+	vModelCap = 40000
+	defer func() { vModelCap = old }()
+	for ci, bits := range cases {
+		m, _ := vGenValue(mt, int(r.fork(uint64(ci)).u64()>>33))
+		if m == nil {
+			continue
+		}
+		vSetFeatures(reflect.ValueOf(m), bits, 0)
+		row := vRow{"k": "val", "t": int(mt), "mut": "feat-boundary", "bits": fmt.Sprint(bits)}
+		d0 := vDump(m)
+		f0 := vFieldMap(m)
+		b, err, pan := vWrite(m)
+		if pan != "" {
+			row["panic"] = pan
+			out.emit(row)
+			continue
+		}
+		row["ok"] = err == nil
+		if err != nil {
+			row["err"] = err.Error()
+			row["too_large"] = strings.Contains(err.Error(), "too large")
+			out.emit(row)
+			continue
+		}
+		row["len"] = len(b)
+		hv := vTier() == "thorough" || heavy[ci] || (ci >= 10 && ci%2 == 0)
+		if hv && len(b) <= vModelCap {
+			out.emit(vRow{"k": "write", "t": int(mt), "fmap": f0, "ok": true, "out": whx(b),
+				"mut": "feat-boundary"})
+		}
+		m2, err, pan, _ := vRead(b)
+		if pan != "" {
+			row["panic"] = pan
+			out.emit(row)
+			continue
+		}
+		row["dec_ok"] = err == nil
+		if err != nil {
+			row["dec_err"] = err.Error()
+			if len(b) <= 400 {
+				row["b"] = whx(b)
+			}
+			out.emit(row)
+			continue
+		}
+		d2 := vDump(m2)
+		row["equal"] = d0 == d2 || vDump(m) == d2
+		if row["equal"] == false {
+			row["diff"] = vDiff(d0, d2)
+		}
+		b2, err, _ := vWrite(m2)
+		row["enc2_same"] = err == nil && bytes.Equal(b, b2)
+		out.emit(row)
+		if !hv {
+			continue
+		}
+		out.emit(vCheckBytes(mt, b, "feat-boundary", nil))
+		// byte-level: one more leading byte in front of the vector
+		vec := vFeatBytes(NewRawFeatureVector(bits...))
+		if len(vec) < 8191 {
+			continue
+		}
+		at := bytes.Index(b, vec)
+		if at < 2 || int(binary.BigEndian.Uint16(b[at-2:])) != len(vec) {
+			continue
+		}
+		for _, top := range []byte{0, 1} {
+			nb := append([]byte{}, b[:at-2]...)
+			nb = append(nb, byte((len(vec)+1)>>8), byte(len(vec)+1), top)
+			nb = append(nb, b[at:]...)
+			// (a TLV-carried vector has the BigSize length `fd xx xx`, whose last
+			// two bytes are patched the same way)
+			rw := vCheckBytes(mt, nb, "feat-extra-byte", nil)
+			if top != 0 && len(vec) == 8192 {
+				rw["feat_over"] = true
+			}
+			out.emit(rw)
+		}
 	}
 }
 
@@ -662,6 +826,8 @@ func TestVerifWire(t *testing.T) {
 				"append-unknown-tlv", b))
 		}
 		out.emit(vCheckBytes(mt, tb[:], "empty-body", nil))
+		// feature vectors at the bit-index boundaries (see vFeatRows)
+		vFeatRows(out, mt, r.fork(700000))
 		// crafted TLV extensions behind the fixed fields of a valid encoding
 		if k := vExtStart(bases[0]); k > 0 {
 			ncraft := vCases(24, 800)
